@@ -149,11 +149,9 @@ def main():
     quick = ck.tier == "quick"
     driver_exe()
     stats = dict(states=0, transitions=0, executions=0)
-    plan = [("two", 2), ("abort", 2), ("error", 2), ("rules-level", 2), ("three", 1 if quick else 2)]
+    plan = [("two", 2), ("same-size", 2), ("abort", 2), ("error", 2), ("rules-level", 2), ("three", 1 if quick else 2)]
     if not quick:
-        plan = [("two", None), ("abort", 3), ("error", 3), ("rules-level", 3), ("three", 2)]
-    else:
-        plan.append(("two", None)) if False else None
+        plan = [("two", None), ("same-size", None), ("abort", 3), ("error", 3), ("rules-level", 3), ("three", 2)]
     outs = {}
     for scen, bound in plan:
         outs[scen] = explore(ck, scen, bound, stats)
@@ -165,8 +163,8 @@ def main():
     ck.cov["distinct_nontrivial"] = stats["states"]
     d = Driver(); r = d.run("two", [0, 0, 0, 1, 1, 0]); d.p.kill()
     ck.sample(dict(scenario="two", schedule_prefix=[0, 0, 0, 1, 1, 0], points=[[p[0], p[2], p[3]] for p in r["points"]][:40], thread_traces=r["traces"]))
-    ck.cov["rule"] = ("executions = schedules of the real driver (2-3 threads: create scanner, define external, scan, destroy; variants with callback abort / error and the "
-                      "rules-level entry point) enumerated by DFS with prefix replay; states = distinct hashes of (per-thread progress, mutex owner, usecount, installed / saved handler, "
+    ck.cov["rule"] = ("executions = schedules of the real driver (2-3 threads: create scanner, define external, scan, destroy; variants with callback abort / error, the "
+                      "rules-level entry point, and two different buffers of equal size whose module values are logged) enumerated by DFS with prefix replay; states = distinct hashes of (per-thread progress, mutex owner, usecount, installed / saved handler, "
                       "trace lengths) seen at scheduling points; transitions = distinct (state, thread chosen); preemption bounds per scenario in subspaces")
     ck.assumptions += ["the scheduler serialises threads: plain data races are only visible to the free-running TSan pass", "SIGBUS delivery itself is not scheduled (mapped-file faults run in the TSan/free pass only)"]
     ck.finish()
